@@ -142,6 +142,8 @@ def build_and_run(ctx, work, entries, tag):
 
 def run(ctx):
     from miasm.ir.translators.C import TranslatorC
+    from miasm.expression.simplifications import expr_simp_high_to_explicit
+    lowered = [0]
     import miasm.expression.expression as m
     q = ctx.quick
     rng = ctx.rng
@@ -167,6 +169,16 @@ def run(ctx):
         for op in ["-", "parity", "cntleadzeros", "cnttrailzeros"]:
             exprs.append(m.ExprOp(op, a))
         exprs += [a.zeroExtend(2 * w), a.signExtend(2 * w), a[1:w - 1], m.ExprCompose(a, b), m.ExprCond(a, a, b)]
+    # operators that need no width-specific helper, at widths that are not a native C integer width
+    for w in (1, 3, 5, 7, 12, 15, 24, 31, 33, 48, 63, 65, 100):
+        a, b = m.ExprId("a%d" % w, w), m.ExprId("b%d" % w, w)
+        for op in exprgen.NARY + exprgen.CMP:
+            exprs.append(m.ExprOp(op, a, b))
+        exprs += [m.ExprOp("-", a), m.ExprOp("parity", a), a.zeroExtend(w + 3), a.signExtend(w + 3), a.signExtend(2 * w + 1),
+                  m.ExprCompose(a, b), m.ExprCond(a, a, b), m.ExprOp("<s", a, m.ExprInt(0, w)),
+                  m.ExprOp("<=s", m.ExprInt((1 << w) - 1, w), b)]
+        if w > 1:
+            exprs.append(a[1:w])
     tr = TranslatorC()
     entries, unsupported = [], {}
     NATIVE = (8, 16, 32, 64)
@@ -235,7 +247,17 @@ def run(ctx):
             csrc = tr.from_expr(e)
         except NotImplementedError as ex:
             unsupported[str(ex)[:50]] = unsupported.get(str(ex)[:50], 0) + 1
-            continue
+            # the jitter lowers flag / condition-code operators before translating: try the lowered form
+            # (judged against the lowered expression itself, so that the translator alone is on trial)
+            try:
+                low = expr_simp_high_to_explicit(e)
+                if low == e or too_wide(low) or helper_on_odd_width(low):
+                    continue
+                csrc = tr.from_expr(low)
+                e = low
+                lowered[0] += 1
+            except Exception:
+                continue
         except Exception as ex:
             # the property is conditional on the translator accepting the expression: a refusal of any kind is recorded
             key = "refused:" + type(ex).__name__
@@ -303,6 +325,7 @@ def run(ctx):
     ctx.notes["verdicts"] = counts
     ctx.notes["unsupported"] = unsupported
     ctx.notes["stdout_bytes"] = stdout_total
+    ctx.notes["lowered_before_translation"] = lowered[0]
     ctx.assumptions += ["Expr.tla/BV.tla is the reference (tied to miasm's own constant evaluation by C03)",
                         "an expression whose generated C does not compile (non-native operand widths of helper macros) is 'not accepted'",
                         "MEM_LOOKUP_* are stubbed with the environment's fixed memory function (the VM path is C24's)",
